@@ -6,7 +6,7 @@ KINDS = {'guard_async', 'guard_input_async', 'inputs', 'model_err:asyncrefused',
 
 
 def nontrivial(case, run, val):
-    return any(l[0] == 'SETDATA' for l in run.log)
+    return any(l[0] in ('SETDATA', 'GETDATA') for l in run.log)
 
 
 def features(case, run, val):
@@ -27,9 +27,17 @@ def case_gen(rng, k):
             kind = rng.choice(['ts', 'ts', 'w'] if in_group else ['ts'])
             if e['sa'] in ('eo', 'e2') and e['da'] == 'i': continue       # would need initial data on an event source
             e.update(kind=kind, shift=rng.choice([1, 1, 2]) if kind == 'ts' else 0, init=bool(e['da'] == 'i'))
+    outs_of = {'time-based': ['po'], 'event-based': ['eo', 'e2'], 'hybrid': ['po', 'eo', 'e2']}
+    # permitted asynchronous get_data requests of the agents towards their async-requests partners
+    for e in case['edges']:
+        if e.get('async') and rng.random() < 0.6:
+            gd = case['beh'][e['b']].setdefault('get_data', {})
+            for tt in range(case['until']):
+                if rng.random() < 0.4: gd.setdefault(f'{tt},0', []).append([f"S{e['a']}", rng.choice(outs_of[case['types'][e['a']]])])
     if k % 7 == 6 and case['n'] >= 2 and not any(e.get('async') and e['a'] == 0 and e['b'] == 1 for e in case['edges']):
-        # a set_data towards a simulator without async_requests connection must be refused
-        case['beh'][1].setdefault('set_data', {})['0,0'] = [['S0', 'i', 'setX@0']]
+        # a set_data / get_data towards a simulator without async_requests connection must be refused
+        if k % 2: case['beh'][1].setdefault('set_data', {})['0,0'] = [['S0', 'i', 'setX@0']]
+        else: case['beh'][1].setdefault('get_data', {}).setdefault('0,0', []).append(['S0', outs_of[case['types'][0]][0]])
         case['expect_refusal'] = True
     elif k % 7 in (2, 4):
         # ... also when the same simulator has made permitted requests before (in the same step or in earlier steps)
@@ -47,20 +55,23 @@ def case_gen(rng, k):
                 free = [y for y in ins if not any(f['a'] == b and f['b'] == e['a'] and f['da'] == y for f in case['edges'])]
                 lst = sd.setdefault(f'{tt},0', [])
                 if free and not lst: lst.append([f"S{e['a']}", free[0], f'set{b}.0@{tt}', 0])
-                lst.append([f'S{x}', attr, f'setX@{tt}', 0])
+                if rng.random() < 0.5:
+                    lst.append([f'S{x}', attr, f'setX@{tt}', 0])
+                else:       # a forbidden get_data after the permitted set_data of that step
+                    case['beh'][b].setdefault('get_data', {}).setdefault(f'{tt},0', []).append([f'S{x}', outs_of[case['types'][x]][0]])
                 case['beh'][b].pop('set_data_batched', None)
                 case['expect_refusal'] = True
     return case
 
 
 def run(out, info, tier, seed):
-    out.trusted_base = common.COMMON_TRUSTED + ['modelled by hand: MosaikRemote.set_data/_assert_async_requests, inputs_from_set_data, successors_to_wait_for (Sched/Plane.v, Sched/Timing.v); MosaikRemote.get_data is not modelled']
+    out.trusted_base = common.COMMON_TRUSTED + ['modelled by hand: MosaikRemote.set_data/_assert_async_requests, inputs_from_set_data, successors_to_wait_for (Sched/Plane.v, Sched/Timing.v); MosaikRemote.get_data: only its permission test is modelled (the one set_data shares); the data it returns is not']
     out.assumptions = ['register semantics: a value written twice to the same (entity, attribute, writer) before the next step of the target is superseded']
     sched_check.sched_property(out, info, tier, seed, 'C16', KINDS, monitors.P_C16, case_gen=case_gen,
                                ncases=(130, 2000), variants=[(True, True), (False, True), (False, False)],
                                nontrivial=nontrivial, features=features,
                                extra_obligations=[('Sched.Final (async bound)', 'Sched/Final'), ('Sched.DataP', 'Sched/DataP'), ('Sched.SetData (set_data stays until the next step and is delivered by it)', 'Sched/SetData')])
-    out.coverage['nontrivial_rule'] = 'a set_data call was issued during the run'
+    out.coverage['nontrivial_rule'] = 'a set_data or an asynchronous get_data call was issued during the run'
 
 
 def replay(path, out):
